@@ -182,7 +182,7 @@ pub fn run(ctx: &Ctx) -> ! {
     let mut rep = Report::new(
         ctx,
         "fault_enumeration",
-        "both clients (blocking ureq; async reqwest on a tokio runtime) against a hand-written loopback HTTP/1.1 peer. Request side: requests x payload {none, 1 B, 70 000 B, 70 000 B from a blocking source that reports Interrupted three times (, 3 MiB from a fragmenting source)} x client configuration {none, 1-3 custom headers incl. user-agent override, basic auth with 4 credential shapes} x target path {/, /printers/x, /a%20b?q=1&r=2, /printers/jdoe@corp, /p?user=a@b} x scheme {http, ipp}; and target shapes {ipp, http} x host {127.0.0.1, localhost} x user-info(4) x path(7) x query(5) (with '@', ':' and '/' in path and query) x configuration {plain, basic_auth, custom header, Authorization header}: request target, Host, one connection -> exactly one connection, POST, exact target, Host, content-type, headers, Basic credentials, body = request + payload (decoded by R1). A request object serialised once (to_bytes), then changed (header fields, attributes, payload), then sent must go out in its current state. Response side: responses x trailing data {none, 3 B, 70 000 B} x framing {content-length, chunked, close-delimited} x write plan {one write, one byte per write, EVERY two-piece split}. Failures: every HTTP status 400-599 with and without an IPP body; connection cut after EVERY offset of header+attributes under each framing and inside the HTTP head; stalled server with and without request_timeout. History: two sequential sends through one client value with the first exchange ending in 8 different ways (ok, 500, 404 with IPP body, cut in attributes, cut in head, chunked, close-delimited, IPP error status): the second must be one fresh POST with its own response. Concurrency: N = 2, 3 (4) senders through one client, the peer collects all N requests and answers in EVERY one of the N! orders. distinct = exchange script; non-trivial = exchange with a fault, fragmentation or non-default configuration",
+        "both clients (blocking ureq; async reqwest on a tokio runtime) against a hand-written loopback HTTP/1.1 peer. Request side: requests x payload {none, 1 B, 70 000 B, 70 000 B from a blocking source that reports Interrupted three times (, 3 MiB from a fragmenting source)} x client configuration {none, 1-3 custom headers incl. user-agent override, basic auth with 4 credential shapes} x target path {/, /printers/x, /a%20b?q=1&r=2, /printers/jdoe@corp, /p?user=a@b} x scheme {http, ipp}; and target shapes {ipp, http} x host {127.0.0.1, localhost} x user-info(4) x path(7) x query(5) (with '@', ':' and '/' in path and query) x configuration {plain, basic_auth, custom header, Authorization header}: request target, Host, one connection -> exactly one connection, POST, exact target, Host, content-type, headers, Basic credentials, body = request + payload (decoded by R1). A request object serialised once (to_bytes), then changed (header fields, attributes, payload), then sent must go out in its current state. Response side: responses x trailing data {none, 3 B, 70 000 B} x framing {content-length, chunked, close-delimited} x write plan {one write, one byte per write, EVERY two-piece split}. Huge bodies: a response document and a request payload of 256 MiB + 4097 (1 GiB + 4097) bytes streamed from a pattern generator and verified on the fly, under each framing. Failures: every HTTP status 400-599 with and without an IPP body; connection cut after EVERY offset of header+attributes under each framing and inside the HTTP head; stalled server with and without request_timeout. History: two sequential sends through one client value with the first exchange ending in 8 different ways (ok, 500, 404 with IPP body, cut in attributes, cut in head, chunked, close-delimited, IPP error status): the second must be one fresh POST with its own response. Concurrency: N = 2, 3 (4) senders through one client, the peer collects all N requests and answers in EVERY one of the N! orders. distinct = exchange script; non-trivial = exchange with a fault, fragmentation or non-default configuration",
     );
     rep.assume("interleavings inside hyper / tokio / ureq are not under a controlled scheduler; send(&self) builds a fresh agent and connection per call, so the only cross-request channel is the peer's answer order, which is enumerated");
     rep.assume("verdicts depend only on outcome classes that are stable under TCP coalescing");
@@ -500,6 +500,43 @@ pub fn run(ctx: &Ctx) -> ! {
     rep.section("connection-cuts", s);
     eprintln!("  elapsed {:?}", rep.start.elapsed());
 
+    // ---------------- (4a) huge bodies, both directions: streamed from a pattern generator and verified on the fly.
+    // A cap, a limit adaptor or a counter of the wrong width in the body path shows as a short or altered body.
+    let mut s = Stats::new();
+    {
+        let huge: u64 = tier.pick((256u64 << 20) + 4097, (1u64 << 30) + 4097);
+        let mut jobs: Vec<(ClientKind, u8, Framing)> = vec![];
+        for kind in kinds {
+            for f in [Framing::ContentLength, Framing::Chunked, Framing::Close] {
+                jobs.push((kind, 0, f)); // huge RESPONSE under each framing
+            }
+            jobs.push((kind, 1, Framing::ContentLength)); // huge REQUEST payload
+        }
+        for p in par_range(jobs.len(), jobs.len() as u64, 1, || (Stats::new(), runtime()), |acc, i| {
+            let (st, rt) = acc;
+            let (kind, dir, framing) = jobs[i as usize];
+            let case = json!({"section": "huge", "client": kind.name(), "direction": if dir == 0 { "response" } else { "request" }, "framing": format!("{:?}", framing), "bytes": huge});
+            st.evaluations += 1;
+            st.traces += 1;
+            st.transitions += huge >> 16;
+            st.states.insert(fnv(case.to_string().as_bytes()));
+            st.nontrivial.insert(fnv(case.to_string().as_bytes()));
+            let verdict = huge_exchange(kind, rt, dir, framing, huge, &resps[0].1, &reqs[1]);
+            match verdict {
+                Ok(()) => st.outcome("huge-body-exact"),
+                Err((c, d)) => {
+                    st.outcome("huge-body-wrong");
+                    st.violate(format!("{}:{}", kind.name(), c), format!("{}: {}", case, d), case.clone());
+                }
+            }
+            st.sample(1, || case.clone());
+        }) {
+            s.merge(p.0);
+        }
+    }
+    rep.section("huge-bodies", s);
+    eprintln!("  elapsed {:?}", rep.start.elapsed());
+
     // ---------------- (5) stalls and the request timeout
     let mut s = Stats::new();
     {
@@ -614,6 +651,175 @@ pub fn run(ctx: &Ctx) -> ! {
     }
     rep.section("concurrent-senders", s);
     rep.finish()
+}
+
+/// one exchange with a huge response (dir 0) or a huge request payload (dir 1)
+fn huge_exchange(kind: ClientKind, rt: &tokio::runtime::Runtime, dir: u8, framing: Framing, huge: u64, resp: &Msg, req: &Msg) -> Result<(), (String, String)> {
+    use futures_util::io::AsyncReadExt;
+    use std::io::{Read, Write};
+    use vmc::env::{pattern_fill, PatternCheck, PatternSource};
+    let l = Arc::new(Listener::bind());
+    let port = l.port;
+    let l2 = l.clone();
+    let done = Arc::new(std::sync::atomic::AtomicBool::new(false));
+    let done2 = done.clone();
+    let resp_head = r1::encode_head(resp);
+    let small = r1::encode(resp);
+    let server = std::thread::spawn(move || -> Option<Exchange> {
+        let mut s = l2.accept_until(Duration::from_secs(20), &done2)?;
+        let ex = read_request(&mut s, Instant::now() + Duration::from_secs(120));
+        if ex.error.is_some() {
+            return Some(ex);
+        }
+        if dir == 1 {
+            write_response(&mut s, &Script::ok(small));
+            let _ = s.shutdown(std::net::Shutdown::Write);
+            return Some(ex);
+        }
+        let total = resp_head.len() as u64 + huge;
+        let mut head = "HTTP/1.1 200 OK\r\nServer: vmc-peer\r\nContent-Type: application/ipp\r\n".to_string();
+        match framing {
+            Framing::ContentLength => head.push_str(&format!("Content-Length: {}\r\n", total)),
+            Framing::Chunked => head.push_str("Transfer-Encoding: chunked\r\n"),
+            Framing::Close => head.push_str("Connection: close\r\n"),
+        }
+        head.push_str("\r\n");
+        let mut ok = s.write_all(head.as_bytes()).is_ok();
+        let mut piece = vec![0u8; 1 << 16];
+        let mut off = 0u64;
+        let mut first = true;
+        while ok && off < huge {
+            let n = ((huge - off) as usize).min(piece.len());
+            pattern_fill(off, &mut piece[..n]);
+            let mut out: Vec<u8> = vec![];
+            if first {
+                out.extend_from_slice(&resp_head);
+                first = false;
+            }
+            out.extend_from_slice(&piece[..n]);
+            ok = if framing == Framing::Chunked {
+                s.write_all(format!("{:x}\r\n", out.len()).as_bytes()).is_ok() && s.write_all(&out).is_ok() && s.write_all(b"\r\n").is_ok()
+            } else {
+                s.write_all(&out).is_ok()
+            };
+            off += n as u64;
+        }
+        if ok && framing == Framing::Chunked {
+            let _ = s.write_all(b"0\r\n\r\n");
+        }
+        let _ = s.flush();
+        let _ = s.shutdown(std::net::Shutdown::Write);
+        // let the client drain before the socket goes away
+        let mut sink = [0u8; 1024];
+        let _ = s.set_read_timeout(Some(Duration::from_secs(5)));
+        while let Ok(n) = s.read(&mut sink) {
+            if n == 0 {
+                break;
+            }
+        }
+        Some(ex)
+    });
+    let uri = format!("http://127.0.0.1:{}/ipp", port);
+    let mut request = build_ipp(req);
+    if dir == 1 {
+        *request.payload_mut() = IppPayload::new(PatternSource::new(Arc::new(vec![]), huge));
+    }
+    let cfg = Config::default();
+    let fail = |c: &str, d: String| Err((c.to_string(), d));
+    // the response's document is verified while it streams
+    let outcome: Result<(vmc::r1::CMsg, PatternCheck), String> = match kind {
+        ClientKind::Blocking => blocking_client(&uri, &cfg).send(request).map_err(|e| format!("{:?}", e)).and_then(|r| {
+            let h = r.header().clone();
+            let a = r.attributes().clone();
+            let mut p = r.into_payload();
+            let mut chk = PatternCheck::new();
+            let mut buf = vec![0u8; 1 << 16];
+            let mut small_tail = vec![];
+            loop {
+                match Read::read(&mut p, &mut buf) {
+                    Ok(0) => break,
+                    Ok(n) => {
+                        if dir == 0 {
+                            chk.feed(&buf[..n])
+                        } else {
+                            small_tail.extend_from_slice(&buf[..n])
+                        }
+                    }
+                    Err(e) if e.kind() == std::io::ErrorKind::Interrupted => continue,
+                    Err(e) => return Err(format!("payload read error {:?} after {} bytes", e.kind(), chk.received)),
+                }
+            }
+            cmsg_from_parts(&h, &a, small_tail).map(|m| (m, chk))
+        }),
+        ClientKind::Async => {
+            let c = async_client(&uri, &cfg);
+            rt.block_on(async move {
+                let r = c.send(request).await.map_err(|e| format!("{:?}", e))?;
+                let h = r.header().clone();
+                let a = r.attributes().clone();
+                let mut p = r.into_payload();
+                let mut chk = PatternCheck::new();
+                let mut buf = vec![0u8; 1 << 16];
+                let mut small_tail = vec![];
+                loop {
+                    match AsyncReadExt::read(&mut p, &mut buf).await {
+                        Ok(0) => break,
+                        Ok(n) => {
+                            if dir == 0 {
+                                chk.feed(&buf[..n])
+                            } else {
+                                small_tail.extend_from_slice(&buf[..n])
+                            }
+                        }
+                        Err(e) => return Err(format!("payload read error {:?} after {} bytes", e.kind(), chk.received)),
+                    }
+                }
+                cmsg_from_parts(&h, &a, small_tail).map(|m| (m, chk))
+            })
+        }
+    };
+    done.store(true, std::sync::atomic::Ordering::SeqCst);
+    let ex = server.join().ok().flatten();
+    let (got, chk) = match outcome {
+        Ok(x) => x,
+        Err(e) => return fail("huge-exchange-failed", format!("send() / reading the response failed: {}", &e[..e.len().min(300)])),
+    };
+    let mut expect = resp.canon();
+    expect.data = vec![];
+    if let Some(d) = expect.diff(&got) {
+        return fail("huge-response-differs", d);
+    }
+    if dir == 0 {
+        if chk.received != huge || chk.first_mismatch.is_some() {
+            return fail(
+                if chk.first_mismatch.is_some() { "huge-response-corrupt" } else if chk.received < huge { "huge-response-short" } else { "huge-response-long" },
+                format!("response document of {} bytes came back as {} bytes (first altered byte {:?})", huge, chk.received, chk.first_mismatch),
+            );
+        }
+    } else {
+        let ex = match ex {
+            Some(e) => e,
+            None => return fail("huge-request-missing", "no request reached the peer".into()),
+        };
+        if let Some(e) = &ex.error {
+            return fail("huge-request-incomplete", e.clone());
+        }
+        let head = build_ipp(req).to_bytes().to_vec();
+        if ex.body.len() < head.len() || ex.body[..head.len()] != head[..] {
+            return fail("huge-request-head-differs", format!("request body starts with {}", hex(&ex.body[..ex.body.len().min(64)])));
+        }
+        let mut c = PatternCheck::new();
+        for piece in ex.body[head.len()..].chunks(1 << 16) {
+            c.feed(piece);
+        }
+        if c.received != huge || c.first_mismatch.is_some() {
+            return fail(
+                if c.first_mismatch.is_some() { "huge-request-corrupt" } else if c.received < huge { "huge-request-short" } else { "huge-request-long" },
+                format!("request payload of {} bytes arrived as {} bytes (first altered byte {:?})", huge, c.received, c.first_mismatch),
+            );
+        }
+    }
+    Ok(())
 }
 
 fn cpu_time() -> Duration {
